@@ -122,7 +122,7 @@ def main(argv=None) -> int:
         print(f"VIOLATION property={pid} replay={path}")
         print(f"  rule {o.rule} at {o.loc}: {o.construct}\n  {o.detail}")
     wall = time.time() - t0
-    if root == DEFAULT_REPO or os.environ.get("WRAPSA_WRITE_EVIDENCE"):
+    if (root == DEFAULT_REPO and not os.environ.get("WRAPSA_NO_EVIDENCE")) or os.environ.get("WRAPSA_WRITE_EVIDENCE"):
         write_evidence(pid, tier, rep, tree, wall, len(viol), mod.EXPLANATION, mod.ASSUMPTIONS,
                        extra=extra, known_hit=[o.key() for o in hits])
     n = len(rep.obs)
